@@ -1111,3 +1111,219 @@ class TrackedValueStep(Job):
 
 JOBS.setdefault("C12", [])
 JOBS["C12"] += [TrackedValueStep(op) for op in ("set", "take", "revert_writes", "get")]
+
+
+# =====================================================================================================
+# C40: the V2 access controller state machine -- one transition from an arbitrary state
+# =====================================================================================================
+AC_OPS = {
+    0: ("create_proof", "transition", "AccessControllerCreateProofStateMachineInput"),
+    1: ("initiate_recovery_as_primary", "transition_mut", "AccessControllerInitiateRecoveryAsPrimaryStateMachineInput"),
+    2: ("initiate_recovery_as_recovery", "transition_mut", "AccessControllerInitiateRecoveryAsRecoveryStateMachineInput"),
+    3: ("initiate_badge_withdraw_as_primary", "transition_mut", "AccessControllerInitiateBadgeWithdrawAttemptAsPrimaryStateMachineInput"),
+    4: ("initiate_badge_withdraw_as_recovery", "transition_mut", "AccessControllerInitiateBadgeWithdrawAttemptAsRecoveryStateMachineInput"),
+    5: ("quick_confirm_primary_recovery", "transition_mut", "AccessControllerQuickConfirmPrimaryRoleRecoveryProposalStateMachineInput"),
+    6: ("quick_confirm_recovery_recovery", "transition_mut", "AccessControllerQuickConfirmRecoveryRoleRecoveryProposalStateMachineInput"),
+    7: ("quick_confirm_primary_badge_withdraw", "transition_mut", "AccessControllerQuickConfirmPrimaryRoleBadgeWithdrawAttemptStateMachineInput"),
+    8: ("quick_confirm_recovery_badge_withdraw", "transition_mut", "AccessControllerQuickConfirmRecoveryRoleBadgeWithdrawAttemptStateMachineInput"),
+    9: ("timed_confirm_recovery", "transition_mut", "AccessControllerTimedConfirmRecoveryStateMachineInput"),
+    10: ("cancel_primary_recovery", "transition_mut", "AccessControllerCancelPrimaryRoleRecoveryProposalStateMachineInput"),
+    11: ("cancel_recovery_recovery", "transition_mut", "AccessControllerCancelRecoveryRoleRecoveryProposalStateMachineInput"),
+    12: ("cancel_primary_badge_withdraw", "transition_mut", "AccessControllerCancelPrimaryRoleBadgeWithdrawAttemptStateMachineInput"),
+    13: ("cancel_recovery_badge_withdraw", "transition_mut", "AccessControllerCancelRecoveryRoleBadgeWithdrawAttemptStateMachineInput"),
+    14: ("lock_primary_role", "transition_mut", "AccessControllerLockPrimaryRoleStateMachineInput"),
+    15: ("unlock_primary_role", "transition_mut", "AccessControllerUnlockPrimaryRoleStateMachineInput"),
+    16: ("stop_timed_recovery", "transition_mut", "AccessControllerStopTimedRecoveryStateMachineInput"),
+}
+AC_WITH_PROPOSAL = {1: "proposal", 2: "proposal", 5: "proposal_to_confirm", 6: "proposal_to_confirm", 9: "proposal_to_confirm",
+                    16: "proposal"}
+AC_STATE = ["L", "pa", "pp", "pw", "ra", "rp", "rt", "rw"]
+
+
+def _prop(t):
+    return StructV("RecoveryProposal", [IntV(t, "u32")])
+
+
+def ac_state_tuple(d):
+    rr_state = EnumV("RecoveryRoleRecoveryState", z3.If(lit(d["ra"]) == 2, 1, 0),
+                     {0: [_prop(d["rp"])], 1: [_prop(d["rp"]), StructV("Instant", [IntV(d["rt"], "i64")])]})
+    return StructV("(PrimaryRoleLockingState, PrimaryRoleRecoveryAttemptState, PrimaryRoleBadgeWithdrawAttemptState, "
+                   "RecoveryRoleRecoveryAttemptState, RecoveryRoleBadgeWithdrawAttemptState)", [
+        EnumV("PrimaryRoleLockingState", d["L"], {0: [], 1: []}),
+        EnumV("PrimaryRoleRecoveryAttemptState", d["pa"], {0: [], 1: [_prop(d["pp"])]}),
+        EnumV("PrimaryRoleBadgeWithdrawAttemptState", d["pw"], {0: [], 1: []}),
+        EnumV("RecoveryRoleRecoveryAttemptState", z3.If(lit(d["ra"]) == 0, 0, 1), {0: [], 1: [rr_state]}),
+        EnumV("RecoveryRoleBadgeWithdrawAttemptState", d["rw"], {0: [], 1: []})])
+
+
+def ac_read_state(sub):
+    t = sub.fields[4].fields
+
+    def pv(v):
+        while v is not None and v.kind == "struct" and v.fields:
+            v = v.fields[0]
+        return v.term if v is not None and v.kind == "int" else z3.IntVal(0)
+    pa = t[1]
+    pp = pv(_payload(pa, 1))
+    ra_e = t[3]
+    rr = _payload(ra_e, 1)
+    if rr is not None and rr.kind == "enum":
+        timed = rr.discr == 1
+        rp = z3.If(timed, pv(_payload(rr, 1, 0)), pv(_payload(rr, 0, 0)))
+        rt = pv(_payload(rr, 1, 1))
+        ra = z3.If(ra_e.discr == 0, 0, z3.If(timed, 2, 1))
+    else:
+        ra, rp, rt = z3.If(ra_e.discr == 0, 0, 1), z3.IntVal(0), z3.IntVal(0)
+    return {"L": t[0].discr, "pa": pa.discr, "pp": z3.If(pa.discr == 1, pp, 0), "pw": t[2].discr, "ra": ra,
+            "rp": z3.If(ra != 0, rp, 0), "rt": z3.If(ra == 2, rt, 0), "rw": t[4].discr}
+
+
+class AccessControllerStep(Job):
+    crate = "radix-engine"
+    query_timeout_s = 60
+
+    def __init__(self, op):
+        self.op = op
+        self.opname, self.fn_name, self.input_ty = AC_OPS[op]
+        self.name = "c40m::access_controller_" + self.opname
+        self.what = ("access controller V2 state machine, transition `%s`, from every state (locking, both recovery "
+                     "attempts with arbitrary proposals, both badge-withdraw attempts, arbitrary timer) and every input "
+                     "proposal / clock answer: it succeeds exactly under the documented guard, a failed call leaves the "
+                     "state unchanged, and a successful one changes exactly the documented components" % self.opname)
+        self.cover_labels = ["ok", "err"] if op not in (14, 15) else ["ok"]
+
+    @property
+    def env_overrides(self):
+        def m_now(interp, path, args, ret_ty, callee):
+            return EnumV(ret_ty, 0, {0: [StructV("Instant", [IntV(lit(self._d["now"]), "i64")])]})
+
+        def m_cmp(interp, path, args, ret_ty, callee):
+            return EnumV(ret_ty, 0, {0: [BoolV(lit(self._d["cmp"]) == 1)]})
+
+        def m_true(interp, path, args, ret_ty, callee):
+            return BoolV(True)
+
+        def m_vault_ok(interp, path, args, ret_ty, callee):
+            return EnumV(ret_ty, 0, {0: [StructV("OpaqueNode", [])]})
+
+        def m_default_state(interp, path, args, ret_ty, callee):
+            return ac_state_tuple({k: 0 for k in AC_STATE})
+
+        def m_prop_eq(interp, path, args, ret_ty, callee):
+            a, b = _models.deref(interp, path, args[0]), _models.deref(interp, path, args[1])
+            return BoolV(_models.val_eq(a, b))
+        return [(re.compile(r"Runtime::current_time::<"), m_now),
+                (re.compile(r"Runtime::compare_against_current_time::<"), m_cmp),
+                (re.compile(r"is_internal_fungible_vault$"), m_true),
+                (re.compile(r"as Native(Fungible|NonFungible)?Vault>::(take_all|amount|create_proof_of_amount|"
+                            r"non_fungible_local_ids|create_proof_of_non_fungibles)::<"), m_vault_ok),
+                (re.compile(r"^<\(PrimaryRoleLockingState, .*\) as Default>::default$"), m_default_state),
+                (re.compile(r"^<RecoveryProposal as PartialEq>::eq$"), m_prop_eq),
+                (re.compile(r"^<RecoveryProposal as Clone>::clone$"), _models.m_clone)]
+
+    def locate(self, prog):
+        self_ty = "&AccessControllerV2Substate" if self.fn_name == "transition" else "&mut AccessControllerV2Substate"
+        return find_function(prog, "access_controller/v2/state_machine.rs", self.fn_name,
+                             param_types=[self_ty, "&mut Y", self.input_ty])
+
+    def inputs(self):
+        d = {k: z3.Int(k) for k in AC_STATE + ["dsome", "delay", "ip", "now", "cmp"]}
+        pre = [d["L"] >= 0, d["L"] <= 1, d["pa"] >= 0, d["pa"] <= 1, d["pw"] >= 0, d["pw"] <= 1, d["ra"] >= 0, d["ra"] <= 2,
+               d["rw"] >= 0, d["rw"] <= 1, d["pp"] >= 1, d["pp"] <= 1000, d["rp"] >= 1, d["rp"] <= 1000, d["ip"] >= 1,
+               d["ip"] <= 1000, d["rt"] >= -(1 << 62), d["rt"] <= (1 << 62), d["now"] >= -(1 << 62), d["now"] <= (1 << 62),
+               d["dsome"] >= 0, d["dsome"] <= 1, d["delay"] >= 0, d["delay"] < (1 << 32), d["cmp"] >= 0, d["cmp"] <= 1]
+        return d, pre
+
+    def setup_path(self, path, inp):
+        d = {k: lit(v) for k, v in inp.items()}
+        self._d = d
+        sub = StructV("AccessControllerV2Substate", [
+            StructV("Vault", [StructV("Own", [StructV("NodeId", [IntV(3, "u8")])])]), EnumV("Option<Vault>", 0, {0: []}),
+            EnumV("Option<u32>", d["dsome"], {0: [], 1: [IntV(d["delay"], "u32")]}), StructV("ResourceAddress", [IntV(1, "u8")]),
+            ac_state_tuple(d)])
+        path.frames["job"] = {"self": sub, "api": StructV("Api", [])}
+
+    def args(self, inp):
+        me = RefV("&AccessControllerV2Substate" if self.fn_name == "transition" else "&mut AccessControllerV2Substate",
+                  "job", "self", ())
+        api = RefV("&mut Y", "job", "api", ())
+        if self.op in AC_WITH_PROPOSAL:
+            inp_v = StructV(self.input_ty, [_prop(lit(inp["ip"]))])
+        else:
+            inp_v = StructV(self.input_ty, [])
+        return [me, api, inp_v]
+
+    def extract_outcome(self, o):
+        d = ac_read_state(o.path.frames["job"]["self"])
+        v = o.value
+        d["ok"] = v.discr == 0
+        ret = _payload(v, 0)
+        if ret is not None and ret.kind == "struct" and ret.ty == "RecoveryProposal":
+            d["ret"] = z3.If(v.discr == 0, ret.fields[0].term, 0)
+        else:
+            d["ret"] = z3.IntVal(0)
+        return d
+
+    def native(self, nat, vals):
+        t = nat.call("ac_run", vals["L"], vals["pa"], vals["pp"], vals["pw"], vals["ra"], vals["rp"], vals["rt"], vals["rw"],
+                     vals["dsome"], vals["delay"], self.op, vals["ip"], vals["now"], vals["cmp"]).split()
+        if t[0] == "panic":
+            return {"panic": True, "msg": " ".join(t[1:])}
+        r = {"panic": False, "ok": t[0] == "ok", "ret": 0 if t[1] == "-" else int(t[1])}
+        for k, x in zip(AC_STATE, t[2:]):
+            r[k] = int(x)
+        return r
+
+    def post(self, inp, res):
+        d = {k: lit(v) for k, v in inp.items()}
+        r = {k: lit(v) for k, v in res.items() if not isinstance(v, str)}
+        # the state components are only meaningful where the enum says so
+        pre = {"L": d["L"], "pa": d["pa"], "pp": z3.If(d["pa"] == 1, d["pp"], 0), "pw": d["pw"], "ra": d["ra"],
+               "rp": z3.If(d["ra"] != 0, d["rp"], 0), "rt": z3.If(d["ra"] == 2, d["rt"], 0), "rw": d["rw"]}
+
+        def same(keys=AC_STATE):
+            return z3.And([r[k] == pre[k] for k in keys])
+
+        def others_same(changed):
+            return same([k for k in AC_STATE if k not in changed])
+        default = z3.And([r[k] == 0 for k in AC_STATE])
+        ok, op = r["ok"], self.op
+        add_ok = z3.And(d["now"] + d["delay"] * 60 <= (1 << 63) - 1)
+        guard = {
+            0: d["L"] == 0, 1: d["pa"] == 0, 2: z3.And(d["ra"] == 0, z3.Implies(d["dsome"] == 1, add_ok)), 3: d["pw"] == 0,
+            4: d["rw"] == 0, 5: z3.And(d["pa"] == 1, d["pp"] == d["ip"]), 6: z3.And(d["ra"] != 0, d["rp"] == d["ip"]),
+            7: d["pw"] == 1, 8: d["rw"] == 1, 9: z3.And(d["ra"] == 2, d["rp"] == d["ip"], d["cmp"] == 1), 10: d["pa"] == 1,
+            11: d["ra"] != 0, 12: d["pw"] == 1, 13: d["rw"] == 1, 14: z3.BoolVal(True), 15: z3.BoolVal(True),
+            16: z3.And(d["ra"] == 2, d["rp"] == d["ip"])}[op]
+        effect = {
+            0: same(),
+            1: z3.And(r["pa"] == 1, r["pp"] == d["ip"], others_same(["pa", "pp"])),
+            2: z3.And(z3.If(d["dsome"] == 1, z3.And(r["ra"] == 2, r["rt"] == d["now"] + d["delay"] * 60), r["ra"] == 1),
+                      r["rp"] == d["ip"], others_same(["ra", "rp", "rt"])),
+            3: z3.And(r["pw"] == 1, others_same(["pw"])), 4: z3.And(r["rw"] == 1, others_same(["rw"])),
+            5: z3.And(default, r["ret"] == d["pp"]), 6: z3.And(default, r["ret"] == d["rp"]), 7: default, 8: default,
+            9: z3.And(default, r["ret"] == d["rp"]),
+            10: z3.And(r["pa"] == 0, others_same(["pa", "pp"])), 11: z3.And(r["ra"] == 0, others_same(["ra", "rp", "rt"])),
+            12: z3.And(r["pw"] == 0, others_same(["pw"])), 13: z3.And(r["rw"] == 0, others_same(["rw"])),
+            14: z3.And(r["L"] == 1, others_same(["L"])), 15: z3.And(r["L"] == 0, others_same(["L"])),
+            16: z3.And(r["ra"] == 1, r["rp"] == d["rp"], others_same(["ra", "rt"]))}[op]
+        return [("the transition succeeds exactly under its documented guard", ok == guard),
+                ("a failed transition leaves the state unchanged", z3.Implies(z3.Not(ok), same())),
+                ("a successful transition changes exactly the documented components", z3.Implies(ok, effect))]
+
+    def covers(self, inp, res):
+        ok = lit(res["ok"])
+        return [("ok", ok)] + ([("err", z3.Not(ok))] if self.op not in (14, 15) else [])
+
+    def vectors(self, rng):
+        out = []
+        for _ in range(40):
+            pp, rp = rng.randrange(1, 5), rng.randrange(1, 5)
+            out.append({"L": rng.randrange(2), "pa": rng.randrange(2), "pp": pp, "pw": rng.randrange(2), "ra": rng.randrange(3),
+                        "rp": rp, "rt": rng.choice([0, 1600, -50]), "rw": rng.randrange(2), "dsome": rng.randrange(2),
+                        "delay": rng.choice([0, 10, 4294967295]), "ip": rng.choice([pp, rp, 7]), "now": rng.choice([0, 1000, -7]),
+                        "cmp": rng.randrange(2)})
+        return out
+
+
+JOBS["C40"] = [AccessControllerStep(op) for op in sorted(AC_OPS)]
